@@ -254,6 +254,17 @@ PROPS["C09"] = {
     ],
 }
 
+PROPS["C12"] = {
+    "technique": "structure-aware mutation property testing (rapid) of valid files produced by the real writers, with panic / time / allocation watchdogs; thorough: Go native coverage-guided fuzzing per parser seeded with the valid files",
+    "level_text": "24 parser entry points (the eight IPLD node decoders, multi-frame loading with self links, the CAR reader, CAR sections, the three compact-index readers, the typed index openers, index metadata, sig-exists current and legacy, slot-to-blocktime, linked log, gsfa directory, manifest, transaction-status metadata, first-signature) are driven with mutations of valid inputs built by the real writers: length/count/offset fields overwritten with 0, 1, 12, max and values inconsistent with the file size (1..8 bytes, both byte orders), CBOR item heads replaced by other kinds (list/map/int/bytes/tag/indefinite), truncation, bit flips, appended bytes, tiny and random inputs. A panic, a call that does not return within 20 s, or more than 64 MiB + 256 x len(input) allocated during the call is a violation; returned errors are fine. Exploration level.",
+    "level_note": "Allocation is measured with runtime.MemStats.TotalAlloc deltas around the call in an otherwise idle process. 'Never' is bounded by the case budget; the thorough tier adds native fuzzing.",
+    "rule": ("rapid draws target, seed file, mutation kind and positions/values; non-trivial = mutated input that passes the first validation stage of its parser (reported per target as deep:<target>); distinct by input hash"),
+    "assumptions": ["valid seeds come from one generated epoch built at process start"],
+    "units": [
+        {"name": "mutation", "pkg": ".", "run": "TestVfC12", "checks": T(24000, 1200000), "shards": T(8, 16), "timeout": T(900, 3000), "transforms": GSFA_FASTPOLL, "env": {"GOGC": "100"}, "shrinktime": "15s"},
+    ],
+}
+
 
 # properties not (yet) claimed by a check; kept current by hand
 NOT_APPLICABLE = [
